@@ -1,2 +1,140 @@
-(* C08 -- placeholder while the correspondence is being established *)
-From DV Require Import Lib.Base Auth.Types Gen.AuthTables Auth.Server.
+(* C08 -- a peer counts as authenticated only after a valid SASL exchange.
+   Only theorem statements closed by [exact]; proofs live in Proofs/Auth*.v.
+   Model: Auth/Server.v (dbus-auth.c, server side), Auth/Transport.v (the gate in
+   dbus-transport.c / dbus-transport-socket.c); specification: Spec/AuthSpec.v.
+   Every statement quantifies over the environment [e] (socket credentials,
+   allowed mechanisms, keyring, random source, user database, build flavour),
+   over all byte chunks / write-out events [evs] and over all lines. *)
+From DV Require Import Lib.Base Auth.Types Gen.AuthTables Auth.Sha1 Wire.Utf8 Auth.Server Auth.Transport Spec.AuthSpec
+  Proofs.AuthInv Proofs.AuthBasics Proofs.AuthShape Proofs.AuthTrace Proofs.AuthTransport Proofs.AuthLex Proofs.AuthRefine Proofs.AuthMain.
+Local Open Scope N_scope.
+
+(* _dbus_auth_do_work always terminates (the out-of-fuel result of the model never occurs) *)
+Theorem C08_do_work_total : forall e a ev, step e a ev <> None.
+Proof. exact step_total. Qed.
+Print Assumptions C08_do_work_total.
+
+(* In every reachable state: no identity is granted outside WaitingForBegin / Authenticated, and a granted
+   identity is exactly the one its mechanism establishes -- EXTERNAL: the uid, pid, gids the kernel reported
+   for the socket; DBUS_COOKIE_SHA1: the server owner's uid + the socket's pid; ANONYMOUS: no uid -- for a
+   mechanism the server permits. *)
+Theorem C08_identity_invariant : forall e evs a, run e auth_init evs = Some a ->
+  let c := a_core a in
+  (a_state c = WaitingForAuth \/ a_state c = WaitingForData -> get_identity a = creds_empty) /\
+  (a_state c = WaitingForBegin \/ a_state c = Authenticated ->
+     exists m, a_mech c = Some m /\ permitted e m /\ established e m (get_identity a)).
+Proof. exact identity_invariant. Qed.
+Print Assumptions C08_identity_invariant.
+
+(* Authenticated only after a completed mechanism followed by BEGIN; the mechanism's success condition
+   ([mech_condition]: identity = socket uid / correct SHA-1 of server challenge, client challenge and the
+   keyring's cookie / UTF-8 trace); the identity seen afterwards is the one that step established; all bytes
+   before the BEGIN line were handshake lines and exactly the bytes after it are handed over. *)
+Theorem C08_authenticated_only_after_valid_exchange : forall e evs a,
+  run e auth_init evs = Some a -> a_state (a_core a) = Authenticated ->
+  exists ls pre okl mid bl post m d,
+    fed evs = join_lines ls ++ a_incoming a /\ unused_bytes a = Some (a_incoming a) /\
+    ls = pre ++ okl :: mid ++ bl :: post /\
+    ok_step e (lrun e core_init pre) okl /\ permitted e m /\
+    a_mech (fst (process_line e (lrun e core_init pre) okl)) = Some m /\
+    mech_condition e (lrun e core_init pre) m d /\ payload_of okl d /\
+    a_state (lrun e core_init (pre ++ okl :: mid)) = WaitingForBegin /\ command_word bl = str_BEGIN /\
+    get_identity a = a_authorized (fst (process_line e (lrun e core_init pre) okl)) /\
+    established e m (get_identity a).
+Proof. exact authenticated_only_after_valid_exchange. Qed.
+Print Assumptions C08_authenticated_only_after_valid_exchange.
+
+(* no byte is treated as message data before the conversation ended: the input stream is the processed
+   lines followed by what is still buffered, and unused bytes exist only in a final state *)
+Theorem C08_no_data_before_begin : forall e evs a, run e auth_init evs = Some a -> is_crashed (a_core a) = false ->
+  exists ls, fed evs = join_lines ls ++ a_incoming a /\ (unused_bytes a <> None -> in_end_state (a_core a) = true).
+Proof. exact framing. Qed.
+Print Assumptions C08_no_data_before_begin.
+
+(* every REJECTED is counted, at most max_failures are ever sent, and the last one ends the conversation *)
+Theorem C08_bounded_rejections : forall e evs a, run e auth_init evs = Some a ->
+  exists ls rs, reach e (fed evs) ls rs a /\
+    a_failures (a_core a) = count_rej rs /\ count_rej rs <= max_failures /\
+    (count_rej rs = max_failures -> in_end_state (a_core a) = true).
+Proof. exact bounded_rejections. Qed.
+Print Assumptions C08_bounded_rejections.
+
+(* after each _dbus_auth_do_work: finished, or at most MAX_BUFFER bytes in either buffer and no complete line left *)
+Theorem C08_buffer_bound : forall e a ev a', step e a ev = Some a' ->
+  in_end_state (a_core a') = true \/
+  (nlen (a_incoming a') <= MAX_BUFFER /\ nlen (a_outgoing a') <= MAX_BUFFER /\ find_crlf (a_incoming a') = None).
+Proof. exact buffer_bound. Qed.
+Print Assumptions C08_buffer_bound.
+
+(* the transport: the flag that gates all message I/O is set only on an Authenticated object with nothing left
+   to send whose identity passed the admission rule; before that nothing reaches the message loader; what
+   reaches it afterwards is the unused bytes followed by later reads *)
+Theorem C08_transport_gate : forall te evs,
+  let t := fst (trun te transport_init evs) in
+  let consumed := snd (trun te transport_init evs) in
+  (tr_authenticated t = true ->
+     a_state (a_core (tr_auth t)) = Authenticated /\ a_outgoing (tr_auth t) = [] /\ admission te (get_identity (tr_auth t)) = true) /\
+  (tr_authenticated t = false -> tr_loader t = [] /\ tr_recovered t = false) /\
+  exists aevs after, run (t_env te) auth_init aevs = Some (tr_auth t) /\ consumed = fed aevs ++ after /\
+     (tr_recovered t = false -> after = [] /\ tr_loader t = []) /\
+     (tr_recovered t = true -> tr_loader t = a_incoming (tr_auth t) ++ after).
+Proof. exact transport_gate. Qed.
+Print Assumptions C08_transport_gate.
+
+(* an identity without uid (ANONYMOUS) is admitted only where anonymous access is enabled *)
+Theorem C08_anonymous_only_if_enabled : forall te id, admission te id = true -> c_uid id = None -> t_allow_anonymous te = true.
+Proof. exact anonymous_only_if_enabled. Qed.
+Print Assumptions C08_anonymous_only_if_enabled.
+
+(* "the server answers as the specification's state machine prescribes": full statement ... *)
+Definition C08_responses_full_statement : Prop := responses_full_statement.
+
+(* ... proved for every line that does not trip the skip_blank assertion and whose hex argument has no
+   dangling digit (one step, from any state satisfying the invariant; and whole conversations) ... *)
+Theorem C08_responses_partial : forall e c line, Inv e c -> in_end_state c = false ->
+  a_state (fst (process_line e c line)) <> Crashed -> odd_hex (hexarg_of line) = false ->
+  spec_step e (abs c) line = (abs (fst (process_line e c line)), map kind_of (snd (process_line e c line))).
+Proof. exact refine_step. Qed.
+Print Assumptions C08_responses_partial.
+
+Theorem C08_responses_partial_run : forall e ls, lines_ok e core_init ls ->
+  spec_run e spec_init ls = (abs (lrun e core_init ls), lresps e core_init ls).
+Proof. intros e ls H. exact (lrun_refines e ls core_init (Inv_init e) H). Qed.
+Print Assumptions C08_responses_partial_run.
+
+(* ... and refuted for the two excluded classes (findings F08b and F08a) *)
+Theorem C08_responses_refuted_odd_hex : ~ C08_responses_full_statement.
+Proof. exact responses_refuted_odd_hex. Qed.
+Print Assumptions C08_responses_refuted_odd_hex.
+
+Theorem C08_responses_refuted_abort : ~ C08_responses_full_statement.
+Proof. exact responses_refuted_abort. Qed.
+Print Assumptions C08_responses_refuted_abort.
+
+(* ---------- non-vacuity ---------- *)
+Definition ex_env : env :=
+  mkEnv (mkCreds (Some 1000) (Some 77) None) None [102] true true 0 (fun _ => None) [99] true
+        (fun _ => Some 5) (fun _ => [97; 98]) (fun _ => Some [1; 2]).
+Definition bytes_of_line (l : bytes) : event := Feed (l ++ [13; 10]).
+(* AUTH EXTERNAL 31303030 / BEGIN authenticates uid 1000 and hands over the rest *)
+Example ex_external_ok :
+  option_map (fun a => (a_state (a_core a), c_uid (get_identity a), a_incoming a))
+    (run ex_env auth_init [Feed ([65;85;84;72;32;69;88;84;69;82;78;65;76;32;51;49;51;48;51;48;51;48;13;10]); Sent 100;
+                           Feed [66;69;71;73;78;13;10;108]])
+  = Some (Authenticated, Some 1000, [108]).
+Proof. vm_compute. reflexivity. Qed.
+(* the same with uid 0 requested is rejected *)
+Example ex_external_other_uid :
+  option_map (fun a => (a_state (a_core a), a_failures (a_core a)))
+    (run ex_env auth_init [Feed ([65;85;84;72;32;69;88;84;69;82;78;65;76;32;51;48;13;10;66;69;71;73;78;13;10])])
+  = Some (NeedDisconnect, 1).
+Proof. vm_compute. reflexivity. Qed.
+(* BEGIN first: disconnect; six AUTH lines: disconnect with six failures *)
+Example ex_six_rejections :
+  option_map (fun a => (a_state (a_core a), a_failures (a_core a)))
+    (run ex_env auth_init (repeat (Feed [65;85;84;72;13;10]) 7))
+  = Some (NeedDisconnect, 6).
+Proof. vm_compute. reflexivity. Qed.
+Example ex_lines_ok : lines_ok ex_env core_init [[65;85;84;72]; [66;69;71;73;78]].
+Proof. cbn [lines_ok]. split; [right; split; [vm_compute; discriminate|vm_compute; reflexivity]|].
+       split; [right; split; [vm_compute; discriminate|vm_compute; reflexivity]|exact I]. Qed.
